@@ -63,6 +63,8 @@ def gen_case(rng, ver, tier, force=None):
         if all(o is None for o in opts):
             opts[0] = {"rails": {"input": False}}
     api = "state" if (ver == "v1" and rng.random() < 0.3) else "messages"
+    if turns >= 2 and m >= 1 and rng.random() < 0.1:
+        spec["same_bot"] = True  # the LLM produces the very same text in every turn
     return {"spec": spec, "turns": turns, "kinds": kinds, "V": V, "cid": "c%d" % rng.randint(0, 10**6), "fault": None, "opts": opts, "api": api, "tx": rng.choice([0, 0, 1, 2, 3])}
 
 
@@ -146,7 +148,7 @@ def judge(case, records, app):
         stats["rail_calls_in"] += len(ins)
         stats["rail_calls_out"] += len(outs)
         stats["llm_calls"] += len(llms)
-        bot_token = "BOT-%s-%d" % (case["cid"], t)
+        bot_token = rails.bot_token(case["cid"], t, case["spec"])
         orig_token = "SECRET-%s-%d" % (case["cid"], t)
         # ---------------- C03: a faulted turn
         if rec["raised"] is not None:
